@@ -129,6 +129,26 @@ unsafe fn unsigned_le(a: __m256i, b: __m256i) -> __m256i {
     _mm256_cmpeq_epi8(min_ab, a)
 }
 
+/// Verification hook: the six classification masks of one 32-byte chunk in the
+/// order quotes, backslashes, opens, closes, delims, value_chars.
+/// The caller must have checked that AVX2 is available.
+#[cfg(all(feature = "verif-hooks", target_arch = "x86_64"))]
+pub fn verif_classify_chars(chunk: &[u8; 32]) -> [u32; 6] {
+    // SAFETY: caller checked AVX2; `chunk` is 32 readable bytes.
+    unsafe {
+        let v = _mm256_loadu_si256(chunk.as_ptr().cast::<__m256i>());
+        let c = classify_chars(v);
+        [
+            c.quotes,
+            c.backslashes,
+            c.opens,
+            c.closes,
+            c.delims,
+            c.value_chars,
+        ]
+    }
+}
+
 /// Process a 32-byte chunk and update IB/BP writers.
 /// Returns the new state after processing all 32 bytes.
 #[inline]
